@@ -319,7 +319,7 @@ inline ClauseStat& clause(const char* name)
 {
 	Shared* sh = shared();
 	for(int i = 0; i < sh->nclauses; i++)
-		if(strcmp(sh->clauses[i].name, name) == 0)
+		if(strncmp(sh->clauses[i].name, name, sizeof sh->clauses[i].name - 1) == 0)	// names are stored cut to 63 characters: compare what is stored
 			return sh->clauses[i];
 	if(sh->nclauses >= MAX_CLAUSES)
 		return sh->clauses[MAX_CLAUSES - 1];
